@@ -243,13 +243,86 @@ def check_lemma_canaries():
     return n
 
 
+_EXTRA_DRIVER = r"""
+import sys, json
+sys.path.insert(0, %r)
+import contracts.cvss2, contracts.cvss3, contracts.cvss4, contracts.init, contracts.parse
+from pyvc.contract import REGISTRY, verify
+c = REGISTRY[("cvss3", "CVSS3.clean_vector")]
+out = []
+for case in c.cases:
+    r = verify(c, case, max_seconds=300)
+    out.append({"paths": r.paths, "undecided": [u[0] for u in r.undecided],
+                "status": [(o.name, o.status, o.detail) for o in r.obligations]})
+print("RESULT " + json.dumps(out))
+"""
+
+
+def check_extra_state():
+    """
+    fields outside the representation invariant (pyvc.extra): on a scratch copy of the current
+    cvss/ with a memo of clean_vector() added textually, (a) a memo keyed by output_prefix must
+    verify from every reachable state, (b) a memo that ignores output_prefix must be refuted with
+    the accessor history in the detail.  The copy lives in a temporary directory removed at once.
+    """
+    import json
+    import os
+    import shutil
+    import subprocess
+    import tempfile
+
+    from pyvc.source import REPO
+
+    verif = os.path.dirname(os.path.dirname(os.path.abspath(__file__)))
+    src = open(os.path.join(REPO, "cvss", "cvss3.py")).read()
+    a1 = "        self.parse_vector()\n        self.check_mandatory()\n"
+    a2 = "        vector = []\n        for metric in METRICS_ABBREVIATIONS:\n            if metric in self.original_metrics:"
+    a3 = '        return prefix + "/".join(vector)\n'
+    i = src.find("    def clean_vector(self, output_prefix=True):")
+    if i < 0 or src.count(a1) != 1 or src.find(a2, i) < 0 or src.find(a3, i) < 0:
+        return "skipped (anchors of the textual edit not found in the current cvss3.py)"
+    variants = {
+        "keyed": ("        self._memo = {}\n", "        if output_prefix in self._memo:\n            return self._memo[output_prefix]\n",
+                  '        self._memo[output_prefix] = prefix + "/".join(vector)\n        return self._memo[output_prefix]\n'),
+        "unkeyed": ("        self._memo = None\n", "        if self._memo is not None:\n            return self._memo\n",
+                    '        self._memo = prefix + "/".join(vector)\n        return self._memo\n'),
+    }
+    res = {}
+    for name, (init, head, tail) in variants.items():
+        t = src.replace(a1, init + a1, 1)
+        j = t.find(a2, t.find("    def clean_vector(self, output_prefix=True):"))
+        t = t[:j] + head + t[j:]
+        k = t.find(a3, j)
+        t = t[:k] + tail + t[k + len(a3):]
+        d = tempfile.mkdtemp(prefix="pyvc_selftest_")
+        try:
+            shutil.copytree(os.path.join(REPO, "cvss"), os.path.join(d, "cvss"))
+            with open(os.path.join(d, "cvss", "cvss3.py"), "w") as f:
+                f.write(t)
+            env = dict(os.environ, CVSS_REPO=d, PYVC_NO_CACHE="1")
+            env.pop("PYVC_SECOND_OPINION", None)
+            p = subprocess.run([sys.executable, "-c", _EXTRA_DRIVER % verif], env=env, capture_output=True, text=True, timeout=900)
+        finally:
+            shutil.rmtree(d, ignore_errors=True)
+        line = [x for x in p.stdout.splitlines() if x.startswith("RESULT ")]
+        assert line, "extra-state driver failed: " + p.stderr[-400:]
+        res[name] = json.loads(line[0][7:])
+    for unit in res["keyed"]:
+        assert unit["paths"] > 1 and not unit["undecided"], ("keyed memo: states not explored", unit["undecided"])
+        assert unit["status"] and all(s == "discharged" for _, s, _ in unit["status"]), ("keyed memo must verify", unit["status"])
+    bad = [x for unit in res["unkeyed"] for x in unit["status"] if x[1] == "refuted"]
+    assert bad and all("post:canonical" in x[0] and "after clean_vector(" in (x[2] or "") for x in bad), ("unkeyed memo must be refuted", res["unkeyed"])
+    return len(res["keyed"]) + len(res["unkeyed"])
+
+
 def main():
     import time
 
     t0 = time.time()
     out = {}
     for name, fn in (("canaries", check_canaries), ("string-axioms", check_string_axioms), ("decimal", check_decimal),
-                     ("regex", check_regex), ("join-rule", check_join_rule), ("concrete-match", check_concrete_match), ("lemma-canaries", check_lemma_canaries)):
+                     ("regex", check_regex), ("join-rule", check_join_rule), ("concrete-match", check_concrete_match), ("lemma-canaries", check_lemma_canaries),
+                     ("extra-state", check_extra_state)):
         try:
             out[name] = fn()
         except AssertionError as e:
